@@ -719,7 +719,12 @@ func (e *env) decoderSweep() {
 	n := hx.N(1500, 40000)
 	e.out.Reset("decoders")
 	emitTarget := func(s string) {
-		t := fxtypes.ParseFxTarget(s)
+		var t fxtypes.FxTarget
+		if r := hx.Try(func() error { t = fxtypes.ParseFxTarget(s); return nil }); isPanic(r) {
+			e.violate("target-panic", "panic in ParseFxTarget on input class [slash-separated target text]: "+r+" input="+hex.EncodeToString([]byte(s)), []string{"target " + hx.HexS(s)})
+			e.out.Emit("target "+hx.HexS(s), "panic")
+			return
+		}
 		obs := ""
 		if t.IsIBC() {
 			obs = "ibc " + hx.HexS(t.Prefix) + " " + hx.HexS(t.SourcePort) + " " + hx.HexS(t.SourceChannel)
@@ -788,6 +793,21 @@ func (e *env) decoderSweep() {
 			hobs = "err"
 		}
 		e.out.Emit("hexstr "+hx.Hex(hs), hobs)
+	}
+	// signature → address helper used by the confirm handlers (indexing signature[64])
+	for l := 0; l <= 70; l++ {
+		sig := make([]byte, l)
+		e.rng.Read(sig)
+		if l > 64 {
+			sig[64] = byte(hx.Pick(e.rng, []int{0, 1, 27, 28, 29, 255}))
+		}
+		hash := make([]byte, hx.Pick(e.rng, []int{0, 31, 32, 33}))
+		res := hx.Try(func() error { _, err := crosschaintypes.EthAddressFromSignature(hash, sig); return err })
+		e.out.Stats.Evaluations++
+		e.out.Count("ethsig-" + strings.SplitN(res, ":", 2)[0])
+		if isPanic(res) {
+			e.violate("ethsig-panic", fmt.Sprintf("panic in EthAddressFromSignature on input class [signature of %d bytes]: %s", l, res), []string{"ethsig " + hx.Hex(sig)})
+		}
 	}
 	// address parsers: total, and accepted Ethereum addresses have the stated format
 	addrPool := []string{"", "0x", helpers.GenHexAddress().String(), strings.ToLower(helpers.GenHexAddress().String()), helpers.GenAccAddress().String(),
@@ -868,6 +888,54 @@ func ceilMul(p sdkmath.LegacyDec, gas uint64) sdkmath.Int {
 		q.Add(q, big.NewInt(1))
 	}
 	return sdkmath.NewIntFromBigInt(q)
+}
+
+// specVerdict: the fee rule as the property states it, written independently of ante/fees.go.  ok=false outside the
+// range where the statement applies (gas = 0 with a fee, gas >= 2^63, allowance product overflowing uint64).
+func specVerdict(c feeCase, checkTx bool) (string, bool) {
+	if c.gas >= 1<<63 || (c.gas == 0 && len(c.fee) > 0) {
+		return "", false
+	}
+	if !checkTx {
+		return "admit", true
+	}
+	n := new(big.Int).Mul(big.NewInt(int64(len(c.msgs))), new(big.Int).SetUint64(c.maxB))
+	if n.BitLen() > 64 {
+		return "", false
+	}
+	ex := map[string]bool{}
+	for _, u := range c.exempt {
+		ex[u] = true
+	}
+	bypass := len(c.msgs) > 0 && new(big.Int).SetUint64(c.gas).Cmp(n) <= 0
+	for _, m := range c.msgs {
+		if !ex[sdk.MsgTypeURL(m)] {
+			bypass = false
+		}
+	}
+	if bypass {
+		return "admit", true
+	}
+	anyPrice := false
+	for _, p := range c.prices {
+		if !p.Amount.IsZero() {
+			anyPrice = true
+		}
+	}
+	if !anyPrice {
+		return "admit", true
+	}
+	for _, f := range c.fee {
+		for _, p := range c.prices {
+			if p.Denom == f.Denom {
+				if req := ceilMul(p.Amount, c.gas); !req.IsZero() && f.Amount.GTE(req) {
+					return "admit", true
+				}
+				break
+			}
+		}
+	}
+	return "refuse", true
 }
 
 func (e *env) genFeeCase(from sdk.AccAddress, wide bool) feeCase {
@@ -1037,6 +1105,10 @@ func (e *env) feeSweep() {
 			}
 			e.out.Emit(c.op(mode), obs)
 			e.out.Count("fee-direct-" + obs)
+			// independent specification of the rule (the property's wording), where int64(gas) is faithful
+			if want, ok := specVerdict(c, mode == "c"); ok && want != obs {
+				e.violate("fee-spec "+want+" vs "+obs, "fee checker verdict `"+obs+"` differs from the independent specification `"+want+"` (bypass only if the tx has messages, all of exempt types, gas <= n*allowance; otherwise a non-zero minimum price must be covered): "+c.op(mode), []string{c.op(mode)})
+			}
 			e.out.Nontrivial(fmt.Sprintf("fee-direct %s n=%d ex=%d p=%d f=%d %s", mode, len(c.msgs), len(c.exempt), len(c.prices), len(c.fee), obs))
 		}
 	}
@@ -1059,7 +1131,7 @@ func (e *env) feeSweep() {
 		switch {
 		case isPanic(res):
 			obs = "panic"
-			e.out.Violate("the ante handler panicked on a signed transaction: " + res)
+			e.violate("ante-panic-signed", "the ante handler panicked on a signed transaction: "+res, []string{c.op("c")})
 		case res != "ok":
 			if errors.Is(aerr, sdkerrors.ErrInsufficientFee) && strings.Contains(res, "insufficient fees; got") {
 				obs = "refuse"
@@ -1095,10 +1167,10 @@ func (e *env) feeSweep() {
 			}
 		}
 		if !bypass && anyPrice && !covered && obs == "admit" {
-			e.out.Violate("CheckTx admitted a transaction below the node's minimum gas price that is not fee-exempt: " + c.op("c"))
+			e.violate("below-min-admitted", "CheckTx admitted a transaction below the node's minimum gas price that is not fee-exempt: "+c.op("c"), []string{c.op("c")})
 		}
 		if bypass && strings.HasPrefix(obs, "refuse") {
-			e.out.Violate("CheckTx refused (insufficient fee) a transaction that qualifies for the bypass: " + c.op("c"))
+			e.violate("bypass-refused", "CheckTx refused (insufficient fee) a transaction that qualifies for the bypass: "+c.op("c"), []string{c.op("c")})
 		}
 	}
 }
@@ -1123,7 +1195,7 @@ func (e *env) hostileAnte() {
 			e.out.Count("hostile-ante-" + strings.SplitN(res, ":", 2)[0])
 			e.out.Nontrivial("hostile " + class + " " + strings.SplitN(res, ":", 2)[0])
 			if isPanic(res) {
-				e.out.ViolateWith("the ante handler panicked on input class ["+class+"]: "+res, []string{"# ante " + class})
+				e.violate("ante-panic "+class, "the ante handler panicked on input class ["+class+"]: "+res, []string{"# ante " + class})
 			}
 			if strings.Contains(res, "panic") || strings.Contains(res, "runtime error") {
 				e.out.Count("hostile-ante-recovered-panic")
